@@ -1,5 +1,196 @@
-"""stub"""
+"""C04 — conjugation is a PDG-consistent involution at every layer (DESIGN.md §4 C04)."""
+from __future__ import annotations
+
+import ast
+
+from ..core import guards
+from ..core import pyfacts as pf
+from ..core.callgraph import callgraph
+from ..core.defuse import is_identity
+from ..core.match import txt
 from ..core.source import AnchorMissing
-PROP="C04"
+from .common import DEC, DECAY, PUTIL, ckey, fn, returns, where
+
+PROP = "C04"
+FILES = [PUTIL, DECAY, DEC]
+EXPLANATION = (
+    "C04.1 one implementation: the final-state, decay-mode and .dec visitor layers all reach charge_conjugate_name "
+    "(call graph) and no other construct in the package inverts particles (.invert(), negated id lookup, sign "
+    "swapping on name strings); C04.2 the exits of charge_conjugate_name are database inversion, id negation through the "
+    "bi-map, the verbatim ChargeConj(name) marker, and for PDG names convert-in / recurse / convert-back with the marker on "
+    "the ORIGINAL name; C04.3 final-state conjugation maps every name through it and carries the multiplicity unchanged; "
+    "C04.4 mode conjugation forwards the branching fraction, the conjugated final state and all metadata.")
+NOT_DECIDED = ["involution and PDG-ID consistency over the ~800 EvtGen / ~1000 PDG names: a property of the installed particle data (not applicable to static analysis of this source)",
+               "agreement with the CDecay table as an equality of objects"]
+CCN = f"{PUTIL}:charge_conjugate_name"
+
+
 def run(ctx, ss):
-    raise AnchorMissing("rules not built yet")
+    for r, f in (("C04.1", c04_1), ("C04.2", c04_2), ("C04.3", c04_3), ("C04.4", c04_4)):
+        ctx.guard(r, f, ss)
+
+
+def c04_1(ctx, ss):
+    cg = callgraph(ss)
+    if CCN not in cg.funcs:
+        raise AnchorMissing("charge_conjugate_name not found")
+    # (a) the three layers reach it
+    reach_dd = cg.reach([f"{DECAY}:DaughtersDict.charge_conjugate"])
+    (ctx.holds if CCN in reach_dd else ctx.violation)("C04.1", f"{DECAY}:DaughtersDict.charge_conjugate :: reaches", f"src/decaylanguage/{DECAY}",
+                                                       "final-state conjugation reaches charge_conjugate_name" if CCN in reach_dd
+                                                       else "final-state conjugation does not go through charge_conjugate_name")
+    dm, dflow = fn(ss, DECAY, "DecayMode.charge_conjugate")
+    init, iflow = fn(ss, DECAY, "DecayMode.__init__")
+    via = [c for c in pf.calls_in(dm.node) if txt(c.func) == "self.daughters.charge_conjugate"]
+    typed = [s for s in pf.iter_stmts(init.node.body) if isinstance(s, ast.Assign) and txt(s.targets[0]) == "self.daughters"
+             and isinstance(s.value, ast.Call) and txt(s.value.func) == "DaughtersDict"]
+    ok = bool(via) and bool(typed)
+    (ctx.holds if ok else ctx.violation)("C04.1", ckey(dm, None, "reaches"), where(dm, dm.node),
+                                          "mode conjugation delegates to the final state (a DaughtersDict) and hence to charge_conjugate_name" if ok
+                                          else "mode conjugation does not delegate to DaughtersDict.charge_conjugate")
+    reach_v = cg.reach([f"{DEC}:ChargeConjugateReplacement.particle"])
+    (ctx.holds if CCN in reach_v else ctx.violation)("C04.1", f"{DEC}:ChargeConjugateReplacement.particle :: reaches", f"src/decaylanguage/{DEC}",
+                                                      "the .dec visitor reaches charge_conjugate_name (via find_charge_conjugate_match)" if CCN in reach_v
+                                                      else "the .dec visitor does not go through charge_conjugate_name")
+    # (b) nothing else inverts particles
+    n_sites = 0
+    offenders = []
+    for m in pf.all_modules(ss):
+        mf = pf.module_facts(ss, m)
+        for q, ff in mf.funcs.items():
+            for c in pf.calls_in(ff.node, nested=False):
+                if isinstance(c.func, ast.Attribute):
+                    n_sites += 1
+                    if c.func.attr == "invert" and ff.key != CCN:
+                        offenders.append((ff, c, "calls .invert()"))
+                    if c.func.attr in ("swapcase",) or (c.func.attr in ("replace", "translate", "maketrans") and c.args and
+                                                        all(isinstance(a, ast.Constant) and a.value in ("+", "-", "anti-", "") for a in c.args[:2]) and len(c.args) >= 2):
+                        offenders.append((ff, c, "swaps signs on a name string"))
+            for s in pf.walk_no_nested(ff.node):
+                if isinstance(s, ast.Subscript) and isinstance(s.slice, ast.UnaryOp) and isinstance(s.slice.op, ast.USub) \
+                        and ("BiMap" in txt(s.value) or "PDGID" in txt(s.value)) and ff.key != CCN:
+                    offenders.append((ff, s, "negates a PDG ID on its own"))
+    ctx.count("call_sites", n_sites)
+    for ff, node, why in offenders:
+        ctx.violation("C04.1", ckey(ff, node, "second-conjugation"), where(ff, node), f"{ff.qualname} {why}: a second, ad-hoc conjugation besides charge_conjugate_name")
+    if not offenders:
+        ctx.holds("C04.1", "package :: single-implementation", "src/decaylanguage", f"no other particle inversion among {n_sites} method-call sites", n_sites)
+    # embedded positive example: the detector must fire on a five-line snippet (expected count on the tree is zero)
+    ex = ast.parse("def f(n):\n    return n.replace('+', '-')\n")
+    c = [x for x in ast.walk(ex) if isinstance(x, ast.Call)][0]
+    fired = c.func.attr == "replace" and all(isinstance(a, ast.Constant) and a.value in ("+", "-", "anti-", "") for a in c.args[:2])
+    (ctx.holds if fired else ctx.undecided)("C04.1", "embedded-example", "-", "embedded sign-swapping example is detected" if fired else "embedded example not detected")
+
+
+def c04_2(ctx, ss):
+    ff, flow = fn(ss, PUTIL, "charge_conjugate_name")
+    name_p = ff.params[0]
+    rebind = [d for d in flow.defs if d.name == name_p and d.kind != "param"]
+    if rebind:
+        ctx.violation("C04.2", ckey(ff, rebind[0].stmt), where(ff, rebind[0].stmt), f"the parameter `{name_p}` is rebound: the unknown-name marker no longer carries the name verbatim")
+    want = {
+        "db": f"Particle.from_evtgen_name({name_p}).invert().evtgen_name",
+        "id": f"EvtGenName2PDGIDBiMap[-EvtGenName2PDGIDBiMap[{name_p}]]",
+        "pdg": f"EvtGen2PDGNameMap[charge_conjugate_name(PDG2EvtGenNameMap[{name_p}])]",
+    }
+    seen = {}
+    markers = []
+    for r in returns(ff):
+        v = flow.expand(r.value)
+        t = txt(v)
+        conds = guards.path_conditions(ff.node, r)
+        hit = [k for k, w in want.items() if t == w]
+        if hit:
+            seen[hit[0]] = (r, conds)
+        elif isinstance(v, ast.JoinedStr):
+            consts = "".join(p.value for p in v.values if isinstance(p, ast.Constant))
+            fvs = [p for p in v.values if isinstance(p, ast.FormattedValue)]
+            if consts == "ChargeConj()" and len(fvs) == 1 and isinstance(fvs[0].value, ast.Name) and fvs[0].value.id == name_p \
+                    and fvs[0].conversion == -1 and fvs[0].format_spec is None:
+                markers.append((r, conds))
+            else:
+                ctx.violation("C04.2", ckey(ff, r), where(ff, r), f"unknown-name marker is `{t}`, not ChargeConj(<the name verbatim>)")
+        else:
+            ctx.violation("C04.2", ckey(ff, r), where(ff, r), f"unexpected exit `return {t[:100]}`: a name is altered by something other than database inversion / id negation")
+    for k, w in want.items():
+        kk = ckey(ff, None, f"exit:{k}")
+        if k in seen:
+            r, conds = seen[k]
+            pdg_guard = [pol for kind, e, pol in conds if kind == "if" and txt(e) == ff.params[1]]
+            if k == "pdg" and pdg_guard != [True]:
+                ctx.violation("C04.2", kk, where(ff, r), "the PDG-name route is not guarded by pdg_name")
+            elif k != "pdg" and True in pdg_guard:
+                ctx.violation("C04.2", kk, where(ff, r), f"the {k} route is only taken for PDG names")
+            else:
+                ctx.holds("C04.2", kk, where(ff, r), f"exit `{w}`", 2)
+        else:
+            ctx.violation("C04.2", kk, where(ff, ff.node), f"the exit `{w}` is missing")
+    # markers: one in the PDG route handler, one final
+    if len(markers) >= 2:
+        ctx.holds("C04.2", ckey(ff, None, "markers"), where(ff, markers[0][0]), f"{len(markers)} marker exits wrap the original name verbatim", len(markers))
+    else:
+        ctx.violation("C04.2", ckey(ff, None, "markers"), where(ff, ff.node), "a miss no longer yields ChargeConj(name) on both routes")
+    # order: db attempt, then id negation in its handler, then the marker in the inner handler
+    if "db" in seen and "id" in seen:
+        c_id = [c for c in seen["id"][1] if c[0] == "exc"]
+        (ctx.holds if c_id else ctx.violation)("C04.2", ckey(ff, None, "order"), where(ff, seen["id"][0]),
+                                                "id negation is the fallback of the database inversion" if c_id else "id negation is not the fallback of the database inversion")
+
+
+def c04_3(ctx, ss):
+    ff, flow = fn(ss, DECAY, "DaughtersDict.charge_conjugate")
+    rets = returns(ff)
+    if len(rets) != 1:
+        raise AnchorMissing("DaughtersDict.charge_conjugate: expected one return")
+    v = rets[0].value
+    k = ckey(ff, None, "map")
+    if not (isinstance(v, ast.Call) and txt(v.func) in ("self.__class__", "DaughtersDict", "type(self)") and len(v.args) == 1 and isinstance(v.args[0], ast.DictComp)):
+        raise AnchorMissing("DaughtersDict.charge_conjugate: not class(dict comprehension)")
+    dc = v.args[0]
+    g = dc.generators
+    ok_iter = len(g) == 1 and not g[0].ifs and txt(g[0].iter) == "self.items()" and isinstance(g[0].target, ast.Tuple) and len(g[0].target.elts) == 2
+    if not ok_iter:
+        ctx.violation("C04.3", k, where(ff, rets[0]), f"the conjugate final state is not built from every (name, multiplicity) pair: `{txt(dc)[:100]}`")
+        return
+    pn, mn = (e.id for e in g[0].target.elts)
+    key_ok = isinstance(dc.key, ast.Call) and txt(dc.key.func) == "charge_conjugate_name" and len(dc.key.args) >= 1 and txt(dc.key.args[0]) == pn \
+        and (len(dc.key.args) == 2 and txt(dc.key.args[1]) == "pdg_name" or any(kw.arg == "pdg_name" and txt(kw.value) == "pdg_name" for kw in dc.key.keywords))
+    val_ok = isinstance(dc.value, ast.Name) and dc.value.id == mn
+    if key_ok:
+        ctx.holds("C04.3", k + " :: name", where(ff, rets[0]), "each name → charge_conjugate_name(name, pdg_name)", 2)
+    else:
+        ctx.violation("C04.3", k + " :: name", where(ff, rets[0]), f"names are mapped by `{txt(dc.key)[:80]}`, not charge_conjugate_name(name, pdg_name)")
+    if val_ok:
+        ctx.holds("C04.3", k + " :: multiplicity", where(ff, rets[0]), "the multiplicity is carried unchanged", 1)
+    else:
+        ctx.violation("C04.3", k + " :: multiplicity", where(ff, rets[0]), f"the multiplicity becomes `{txt(dc.value)[:60]}` instead of being carried unchanged")
+
+
+def c04_4(ctx, ss):
+    ff, flow = fn(ss, DECAY, "DecayMode.charge_conjugate")
+    rets = returns(ff)
+    if len(rets) != 1 or not isinstance(rets[0].value, ast.Call):
+        raise AnchorMissing("DecayMode.charge_conjugate: expected one constructor call")
+    c = rets[0].value
+    k = ckey(ff, None, "forward")
+    if txt(c.func) not in ("self.__class__", "DecayMode", "type(self)"):
+        raise AnchorMissing("DecayMode.charge_conjugate does not construct a mode")
+    bf = c.args[0] if c.args else next((kw.value for kw in c.keywords if kw.arg == "bf"), None)
+    dd = c.args[1] if len(c.args) > 1 else next((kw.value for kw in c.keywords if kw.arg == "daughters"), None)
+    meta = [kw for kw in c.keywords if kw.arg is None]
+    (ctx.holds if bf is not None and txt(bf) == "self.bf" else ctx.violation)(
+        "C04.4", k + " :: bf", where(ff, c), "branching fraction forwarded unchanged" if bf is not None and txt(bf) == "self.bf"
+        else f"branching fraction of the conjugate mode is `{txt(bf) if bf is not None else None}`")
+    okd = dd is not None and isinstance(dd, ast.Call) and txt(dd.func) == "self.daughters.charge_conjugate" and \
+        ((dd.args and txt(dd.args[0]) == "pdg_name") or any(kw.arg == "pdg_name" and txt(kw.value) == "pdg_name" for kw in dd.keywords))
+    (ctx.holds if okd else ctx.violation)("C04.4", k + " :: daughters", where(ff, c),
+                                           "final state = self.daughters.charge_conjugate(pdg_name)" if okd else f"final state of the conjugate mode is `{txt(dd) if dd is not None else None}`")
+    okm = len(meta) == 1 and txt(meta[0].value) == "self.metadata"
+    (ctx.holds if okm else ctx.violation)("C04.4", k + " :: metadata", where(ff, c),
+                                           "all metadata forwarded (**self.metadata)" if okm else "the metadata (model, parameters, user entries) is not forwarded to the conjugate mode")
+    # the constructor stores every extra keyword
+    init, iflow = fn(ss, DECAY, "DecayMode.__init__")
+    upd = [x for x in pf.calls_in(init.node) if txt(x.func) == "self.metadata.update"]
+    oku = bool(upd) and any((kw.arg is None and txt(kw.value) == "info") for x in upd for kw in x.keywords) or any(x.args and txt(x.args[0]) == "info" for x in upd)
+    (ctx.holds if oku else ctx.violation)("C04.4", ckey(init, None, "stores-info"), where(init, init.node),
+                                           "DecayMode.__init__ stores every extra keyword in metadata" if oku else "DecayMode.__init__ does not store all extra keywords")
